@@ -4,6 +4,7 @@
 package main
 
 import (
+	"fmt"
 	"net"
 	"sort"
 	"time"
@@ -104,6 +105,22 @@ func respToks(resp commands.Response, err error) []Tok {
 	return []Tok{TW("xresp")}
 }
 
+// what a message may or may not alter: every accepted session's table position, sequence numbers, queue length, fragment size, closed flag
+// (whether a retired session is still remembered in the old table is not part of it: a later session's retirement replaces it)
+func (w *c13world) snapshot() []string {
+	out := make([]string, len(w.accepted))
+	live, _ := w.srv.VerifTable()
+	isLive := map[net.Conn]bool{}
+	for _, c := range live {
+		isLive[c] = true
+	}
+	for i, c := range w.accepted {
+		inN, outN, outLen, frag := sadns.VerifUserState(c)
+		out[i] = fmt.Sprintf("%v/%d/%d/%d/%d/%v", isLive[c], inN, outN, outLen, frag, sadns.VerifUserClosed(c))
+	}
+	return out
+}
+
 func init() {
 	opTimeout["c13"] = 400 * time.Second
 	// c13 events...:
@@ -128,7 +145,12 @@ func init() {
 		w := newC13()
 		defer w.comm.Close()
 		var out []Tok
+		var touched []Tok
+		ev := -1
 		for i := 0; i < len(a); {
+			ev++
+			before := w.snapshot()
+			i0 := i
 			switch a[i].W {
 			case "t", "sweep":
 				at := start.Add(time.Duration(a[i+1].I / 40))
@@ -212,6 +234,13 @@ func init() {
 			default:
 				panic("verifharness: bad c13 event")
 			}
+			_ = i0
+			after := w.snapshot()
+			for k := range before {
+				if before[k] != after[k] {
+					touched = append(touched, TIn(ev), TIn(k))
+				}
+			}
 		}
 		// final table: live <n> (slot serial)*  old <n> (slot serial)*  frag per accepted
 		live, old := w.srv.VerifTable()
@@ -232,6 +261,8 @@ func init() {
 		for _, c := range w.accepted {
 			out = append(out, TBool(sadns.VerifUserClosed(c)), TIn(int(sadns.VerifUserFrag(c))))
 		}
-		return out
+		// frame: which already accepted sessions changed during which event (event index counts every event of the line)
+		out = append(out, TW("touched"), TIn(len(touched)/2))
+		return append(out, touched...)
 	})
 }
